@@ -46,6 +46,24 @@ def _map_c(expr):
         return str(text), [(str(n), str(t)) for n, t in m.cse_name_list]
 
 
+REPS = ("py", "np64", "np32")      # C14_CSem!Reps
+
+
+def _const(j, rep):
+    """a Const record as the Python object of representation `rep` (C14_CSem!Reps): the
+    model's constant is its value, the driver builds the object; bool / Fraction (outside
+    the fragment in every representation) stay Python objects"""
+    v = ser.json_to_val(j["v"])
+    if rep == "py" or type(v) not in (int, float):
+        return v
+    import numpy as np
+    if rep == "np64":
+        return np.int64(v) if type(v) is int else np.float64(v)
+    if rep == "np32":
+        return np.int32(v) if type(v) is int else np.float32(v)
+    raise ValueError(f"unknown representation {rep!r}")
+
+
 def _evaluate(expr, env):
     from pymbolic.mapper.evaluator import evaluate
     return ser.call_to_json(lambda: evaluate(expr, env))
@@ -61,10 +79,10 @@ def drive_batch(batch, extra):
     unit = c14c.Unit(ty, [_xyz(e) for e in envs])
     recs = []
     for case in batch["cases"]:
-        rec = {"id": case["id"], "frag": frag, "e": case["e"], "ce": 0, "ex": "",
-               "a": case.get("a") or [{"k": "unrep"}] * len(envs)}
+        rec = {"id": case["id"], "frag": frag, "e": case["e"], "rep": case.get("rep", "py"),
+               "ce": 0, "ex": "", "a": case.get("a") or [{"k": "unrep"}] * len(envs)}
         try:
-            expr = ser.from_json(case["e"])
+            expr = _build(case["e"], None, rec["rep"])
             text, hoists = _map_c(expr)
         except RecursionError:
             raise
@@ -119,29 +137,40 @@ def _collect_kids(j, table):
             _collect_kids(v, table)
 
 
-def _build(j, memo):
-    """like ser.from_json, but equal CSE nodes become the SAME object (shared wrappers)"""
+def _build(j, memo, rep="py"):
+    """like ser.from_json (constructors only), with the constants built in representation
+    `rep`; with a memo dict equal CSE nodes become the SAME object (shared wrappers),
+    with memo None every node is a fresh object"""
     import pymbolic.primitives as p
     t = j["t"]
+
+    def b(c):
+        return _build(c, memo, rep)
     if t == "CSE":
+        if memo is None:
+            return p.CommonSubexpression(b(j["a"]), j["prefix"] or None, j["scope"])
         key = _canon(j)
         if key not in memo:
-            memo[key] = p.CommonSubexpression(_build(j["a"], memo), j["prefix"] or None, j["scope"])
+            memo[key] = p.CommonSubexpression(b(j["a"]), j["prefix"] or None, j["scope"])
         return memo[key]
-    if t in ("Var", "Const"):
+    if t == "Const":
+        return _const(j, rep)
+    if t == "Var":
         return ser.from_json(j)
     if t in ser._NARY:
-        return getattr(p, ser._NARY[t])(tuple(_build(c, memo) for c in j["c"]))
+        return getattr(p, ser._NARY[t])(tuple(b(c) for c in j["c"]))
     if t in ser._BIN:
-        return getattr(p, ser._BIN[t])(_build(j["a"], memo), _build(j["b"], memo))
+        return getattr(p, ser._BIN[t])(b(j["a"]), b(j["b"]))
     if t in ser._UN:
-        return getattr(p, ser._UN[t])(_build(j["a"], memo))
+        return getattr(p, ser._UN[t])(b(j["a"]))
     if t == "Cmp":
-        return p.Comparison(_build(j["a"], memo), j["op"], _build(j["b"], memo))
+        return p.Comparison(b(j["a"]), j["op"], b(j["b"]))
     if t == "If":
-        return p.If(_build(j["i"], memo), _build(j["th"], memo), _build(j["el"], memo))
+        return p.If(b(j["i"]), b(j["th"]), b(j["el"]))
     if t == "Call":
-        return p.Call(_build(j["f"], memo), tuple(_build(c, memo) for c in j["c"]))
+        return p.Call(b(j["f"]), tuple(b(c) for c in j["c"]))
+    if t == "Look":
+        return p.Lookup(b(j["a"]), j["name"])
     return ser.from_json(j)
 
 
@@ -177,6 +206,9 @@ def _drive_history(case, envs, unit):
     from pymbolic.mapper.c_code import CCodeMapper
     hid, hist = case["id"], case["hist"]
     share = hid % 2
+    # the representation of the constants (C14_CSem!Reps) rotates over the histories,
+    # like shared / fresh wrappers: the name-table model does not look at constants
+    rep = case.get("rep") or REPS[(hid // 2) % len(REPS)]
     table = {}
     for h in hist:
         _collect_kids(h.get("e", {}), table)
@@ -202,7 +234,7 @@ def _drive_history(case, envs, unit):
         for i, h in enumerate(hist, 1):
             m = h["m"]
             if h["op"] == "gen":
-                expr = _build(h["e"], memo) if share else ser.from_json(h["e"])
+                expr = _build(h["e"], memo if share else None, rep)
                 ev.append({"k": "call", "m": m, "i": i})
                 del pending[:]
                 try:
@@ -227,7 +259,7 @@ def _drive_history(case, envs, unit):
                            else CCodeMapper(cse_name_list=src.cse_name_list))
                     ev.append({"k": "copy", "m": m, "to": to, "how": h["how"], "proj": _proj(new)})
                 else:
-                    new = src.copy_with_mapped_cses([(h["name"], ser.from_json(h["c"]))])
+                    new = src.copy_with_mapped_cses([(h["name"], _build(h["c"], None, rep))])
                     ev.append({"k": "copym", "m": m, "to": to, "name": h["name"],
                                "c": table[_canon(h["c"])], "proj": _proj(new)})
                 _instrument(new, to, pending, kid_of)
@@ -247,7 +279,7 @@ def _drive_history(case, envs, unit):
                     txt = str(CCodeMapper()(txt))
                 assigns.append((n, txt))
             unit.add(hid * 4 + (m - 1), names, assigns, calls[m])
-    return {"id": hid, "hist": hist, "kids": kids, "ev": ev, "share": share}, rets
+    return {"id": hid, "hist": hist, "kids": kids, "ev": ev, "share": share, "rep": rep}, rets
 
 
 def drive_hbatch(batch, extra):
@@ -330,16 +362,28 @@ def edges(e, acc=None):
             continue
         if pos == "1" and _is_negprod(e):
             continue
-        while _kind(k) == "Power1":
+        via = ""
+        while _kind(k) == "Power1":   # the parent sees a Power node, the text shows the base
             k = k["a"]
+            via = "Power1:"
         if k["t"] not in _LEAF or _kind(k) == "NegConst":
             p = e["t"]
-            acc.append((_kind(e), "*" if p in _COMMUTATIVE else pos, _kind(k)))
+            acc.append((_kind(e), "*" if p in _COMMUTATIVE else pos, via + _kind(k)))
         edges(k, acc)
     return acc
 
 
-def signature(tree, clause, known_keys):
+def signature(tree, clause, known_keys, rep="py"):
+    """Attribution pattern of a failing value verdict; a failure seen with the constants
+    in a numpy representation carries that representation, unless it is a listed
+    (representation-independent) finding."""
+    sg = _signature(tree, clause, known_keys)
+    if rep != "py" and kit.sig_key(sg) not in known_keys:
+        sg = dict(sg, rep=rep)
+    return sg
+
+
+def _signature(tree, clause, known_keys):
     """Attribution pattern of a failing value verdict (DESIGN 7.2).  A tree with no
     composite-under-composite edge is attributed to its root kind, a tree with
     exactly one edge to that edge; a bigger tree to a listed edge it contains, and
@@ -416,7 +460,7 @@ def _generate(tier, seed, out):
                 if key not in seen:
                     seen.add(key)
                     cases.append(p)
-                    if p.get("ar"):
+                    if p.get("ar") and p.get("rep", "py") == "py":
                         alayer.append({"alayer": p["ar"], "e": p["e"]})
     hists = []
     for k in ("names", "names_sim"):
@@ -474,8 +518,9 @@ def _classify_values(verdicts, recs, envs, out):
                 kit.log(f"  A-layer drift: {rec['text']!r} for {json.dumps(rec['e'])[:200]}")
             continue
         rec = byid[v["id"]]
-        sig = signature(rec["e"], v["v"], out.known)
-        out.fail(sig, {"half": "value", "case": {"frag": rec["frag"], "e": rec["e"]}, "envs": envs,
+        sig = signature(rec["e"], v["v"], out.known, rec["rep"])
+        out.fail(sig, {"half": "value", "case": {"frag": rec["frag"], "e": rec["e"], "rep": rec["rep"]},
+                       "envs": envs,
                        "text": rec["text"], "hoists": rec["hoists"], "env_index": v.get("env", 0),
                        "recorded": rec["r"], "evaluator": rec["pv"], "expected": v.get("exp"),
                        "gcc": rec.get("cemsg", ""), "verdict": v})
@@ -494,7 +539,9 @@ def _classify_names(verdicts, recs, envs, out):
             continue
         rec = byid[v["id"]]
         sig = {"clause": v["v"], "mapper": v["kind"], "inherited": v["inh"]}
-        out.fail(sig, {"half": "names", "case": {"hist": rec["hist"]}, "envs": envs,
+        if rec["rep"] != "py" and kit.sig_key(sig) not in out.known:
+            sig["rep"] = rec["rep"]
+        out.fail(sig, {"half": "names", "case": {"hist": rec["hist"], "rep": rec["rep"]}, "envs": envs,
                        "events": rec["ev"], "verdict": v})
     return accepted
 
@@ -597,9 +644,9 @@ def run(tier, seed, out):
     cases, hists, envs = _generate(tier, seed, out)
     vrecs, hrecs, doubt, accepted = _pipeline(cases, hists, envs, out, wd)
     for r in vrecs:
-        out.note_case({"frag": r["frag"], "e": r["e"]}, nontrivial=r["e"]["t"] not in ("Var", "Const"))
+        out.note_case({"frag": r["frag"], "e": r["e"], "rep": r["rep"]}, nontrivial=r["e"]["t"] not in ("Var", "Const"))
     for r in hrecs:
-        out.note_case({"hist": r["hist"]}, nontrivial=True)
+        out.note_case({"hist": r["hist"], "rep": r["rep"]}, nontrivial=True)
     out.extra["value_cases"] = len(vrecs)
     out.extra["value_cases_without_judged_env"] = sum(1 for c in cases if not c.get("j"))
     out.extra["histories"] = len(hrecs)
@@ -617,10 +664,15 @@ def run(tier, seed, out):
     out.rule = ("value half: TLC enumerates root kind x typed holes over the int / exact-float "
                 "pools of C14_Gen.tla (only trees inside the C typing discipline of C14_CSem are "
                 "emitted); one case = one tree, its CCodeMapper text + hoisted assignments compiled "
-                "by gcc and run in every environment; non-trivial = root is a composite node. "
+                "by gcc and run in every environment; a tree with int / float constants is a case of "
+                "its own per representation of the constants (C14_CSem!Reps: Python numbers, numpy "
+                "64-bit scalars, numpy 32-bit scalars; quick: numpy on trees of <= 6 / <= 5 nodes); "
+                "non-trivial = root is a composite node. "
                 "name half: TLC enumerates all histories of MaxGen calls over the expression pool "
                 "of C14_CCodeNames.tla on one mapper and its copies (copy / constructor / "
-                "copy_with_mapped_cses at any point); one case = one history, always non-trivial. "
+                "copy_with_mapped_cses at any point); one case = one history, always non-trivial; "
+                "shared / fresh wrapper objects and the representation of the constants rotate over "
+                "the histories (driver side). "
                 "distinct by canonical JSON digest")
     out.exhaustive = tier == "quick"
     out.assumptions += [
@@ -629,6 +681,8 @@ def run(tier, seed, out):
         "CPython semantics as transcribed in PyNum.tla / Eval.tla (bound to CPython by C02)",
         "values beyond |n|,d <= 30000 and inexact doubles are out of model (skipped): rounding-level "
         "agreement of floating point is not decided",
+        "with numpy scalars as constants the evaluator computes in numpy arithmetic: where its value "
+        "departs from Eval (Python arithmetic) the case is skipped, not judged",
         "hoisted temporaries are declared once per distinct name with the fragment's type "
         "(long / double) and assigned in cse_name_list order",
         "bounded: trees of depth <= 2 over the stated pools, histories of 3 calls (+ seeded random "
@@ -647,7 +701,8 @@ def replay(path, out):
         c["id"] = 0
         cases.append(c)
     else:
-        hists.append({"hist": d["case"]["hist"], "id": d.get("verdict", {}).get("id", 0)})
+        hists.append({"hist": d["case"]["hist"], "id": d.get("verdict", {}).get("id", 0),
+                      "rep": d["case"].get("rep", "py")})
     vrecs, hrecs, _doubt, _acc = _pipeline(cases, hists, envs, out, wd)
     out.samples += [{"replayed": r} for r in (vrecs + hrecs)[:1]]
     out.rule = "replay of one stored case"
